@@ -366,6 +366,10 @@ def cases(tier, seed):
   add('case_pwl_monotone', nk=4, spacing='u', units=1)
   add('case_pwl_monotone', nk=3, spacing='a', units=1, kptype='learned_interior', required=False, timeout=120)
   add('case_categorical', buckets=3, units=1, default=-1)
+  add('case_categorical', buckets=3, units=2, default=0, per_unit_input=True)
+  add('case_categorical', buckets=4, units=1, default=2)
+  add('case_pwl', nk=3, spacing='a', units=1, missing='learned', missing_input=0.0)
+  add('case_pwl', nk=3, spacing='u', units=2, per_unit_input=True, missing='fixed', missing_input=0.0)
   add('case_categorical', buckets=4, units=2, default=7, per_unit_input=True)
   add('case_categorical', buckets=3, units=2, default=None, per_unit_input=False, split=True)
   add('case_categorical', buckets=3, units=1, default=-1, int_input=False)
